@@ -325,7 +325,8 @@ def inspect_mem(broker) -> dict:
         for m in q.dead:
             add(m, "dead", qname)
         for m in q.processing:
-            add(m, "held", qname)
+            by = getattr(q, "taken_by", {}).get(m.key.id_)
+            add(m, "held", qname, {"by": getattr(by, "_sim_who", None)})
     return out
 
 
@@ -393,3 +394,40 @@ def execute(main_factory, scenario: dict, *, step_cap=400_000, vt_cap_s=100_000,
 
 def probe(out: dict, name: str, n: int = 1) -> None:
     out["probes"][name] = out["probes"].get(name, 0) + n
+
+
+async def consume_with_timeout(cons, timeout_s: float):
+    """consume() with an explicit cancellation after `timeout_s` (no timeout scope, plain Task.cancel()).
+
+    Returns the message tuple or None if the call was cancelled.
+    """
+    box: list = []
+
+    async def runner():
+        # a result handed over together with a pending cancellation must not be lost with the task
+        box.append(await cons.consume())
+
+    t = asyncio.ensure_future(runner())
+    done, _ = await asyncio.wait({t}, timeout=timeout_s)
+    if not done:
+        t.cancel()
+    try:
+        await t
+    except asyncio.CancelledError:
+        if not t.cancelled():
+            raise
+    return box[0] if box else None
+
+
+def dropped_consume_results(rec: Recorder) -> dict:
+    """ids whose broker-level consume() returned them inside repid's middleware wrapper while the outer consume()
+    call was cancelled, so that the caller never saw them (known finding: the wrapper's child task).
+    id -> consumer 'who'"""
+    out = {}
+    by_seq = {e.seq: e for e in rec.events if e.op == "consume"}
+    for e in rec.events:
+        if e.op == "consume_inner" and e.outcome == "returned" and e.id is not None:
+            parent = by_seq.get(e.parent)
+            if parent is not None and parent.outcome == "cancelled":
+                out[e.id] = e.who
+    return out
